@@ -371,9 +371,48 @@ def gen_weight(r, pr, scale, dyadic):
             return {"kind": "linear_ramp", "low": low, "high": high, "start": start, "end": start + width, "as": r.choice(["str", "callable"])}
         start = pr[0] + r.uniform(-0.2, 0.8) * h
         end = start + r.uniform(0.05, 1.0) * h
-        return {"kind": "linear_ramp", "low": r.uniform(0, 2), "high": r.uniform(0, 2), "start": start, "end": end,
+        return {"kind": "linear_ramp", "low": r.choice([0.0, r.uniform(0, 2), r.uniform(0, 2)]), "high": r.uniform(0, 2), "start": start, "end": end,
                 "as": r.choice(["str", "callable"])}
     return {"kind": "user", "a": r.uniform(0, 2), "c": r.uniform(0, 2) / (scale * scale)}
+
+
+def gen_points(r, br, pr, ps, rx, ry, dyadic, n):
+    """n points in birth-persistence coordinates: inside / on mesh lines / outside / far / diagonal / duplicates"""
+    bp = []
+    gx = [br[0] + t * ps for t in range(rx + 1)]
+    gy = [pr[0] + t * ps for t in range(ry + 1)]
+    for _ in range(n):
+        where = r.choice(["inside", "inside", "border", "outside", "far", "diag", "dup"])
+        if where == "dup" and bp:
+            bp.append(list(r.choice(bp)))
+            continue
+        if dyadic:
+            b = br[0] + dy(r, -1, rx + 1, 4) * ps
+            p = max(0.0, pr[0] + dy(r, -1, ry + 1, 4) * ps)
+        elif where == "border":
+            b, p = r.choice(gx), r.choice(gy)
+            if r.random() < 0.4:
+                b = r.uniform(br[0], br[1])
+        elif where == "outside":
+            b = r.choice([br[0] - r.uniform(0, 2) * ps, br[1] + r.uniform(0, 2) * ps, r.uniform(br[0], br[1])])
+            p = r.choice([pr[1] + r.uniform(0, 2) * ps, max(0.0, pr[0] - r.uniform(0, 2) * ps)])
+        elif where == "far":
+            b, p = br[1] + 100 * ps * r.uniform(1, 3), pr[1] + 100 * ps * r.uniform(1, 3)
+        elif where == "diag":
+            b, p = r.uniform(br[0], br[1]), 0.0
+        else:
+            b, p = r.uniform(br[0], br[1]), r.uniform(pr[0], pr[1])
+        bp.append([b, max(0.0, p)])
+    return bp
+
+
+def more_dgm(ctx, case, n=None):
+    """another diagram for the configuration of `case`, in the same call convention (skew flag) as `case`"""
+    r = ctx.rng
+    n = r.choice([0, 1, 2, 3, 5]) if n is None else n
+    bp = gen_points(r, case["birth_range"], case["pers_range"], case["pixel_size"], case["rx_hint"], case["ry_hint"],
+                    case.get("dyadic", False), n)
+    return [[b, b + p] for b, p in bp] if case["skew"] else bp
 
 
 KINDS = ["scalar", "diag_eq", "diag_ne", "corr", "corr_eq", "uniform", "user_logistic", "user_gauss_wrap"]
@@ -401,31 +440,7 @@ def gen_case(ctx, kind=None, dyadic=False):
             "kernel": gen_kernel(r, kind, ps, scale, dyadic), "kind": kind}
     case["weight"] = gen_weight(r, pr, scale, dyadic)
     n = r.choice([0, 1, 1, 2, 3, 4, 6])
-    bp = []
-    gx = [br[0] + t * ps for t in range(rx + 1)]
-    gy = [pr[0] + t * ps for t in range(ry + 1)]
-    for _ in range(n):
-        where = r.choice(["inside", "inside", "border", "outside", "far", "diag", "dup"])
-        if where == "dup" and bp:
-            bp.append(list(r.choice(bp)))
-            continue
-        if dyadic:
-            b = br[0] + dy(r, -1, rx + 1, 4) * ps
-            p = max(0.0, pr[0] + dy(r, -1, ry + 1, 4) * ps)
-        elif where == "border":
-            b, p = r.choice(gx), r.choice(gy)
-            if r.random() < 0.4:
-                b = r.uniform(br[0], br[1])
-        elif where == "outside":
-            b = r.choice([br[0] - r.uniform(0, 2) * ps, br[1] + r.uniform(0, 2) * ps, r.uniform(br[0], br[1])])
-            p = r.choice([pr[1] + r.uniform(0, 2) * ps, max(0.0, pr[0] - r.uniform(0, 2) * ps)])
-        elif where == "far":
-            b, p = br[1] + 100 * ps * r.uniform(1, 3), pr[1] + 100 * ps * r.uniform(1, 3)
-        elif where == "diag":
-            b, p = r.uniform(br[0], br[1]), 0.0
-        else:
-            b, p = r.uniform(br[0], br[1]), r.uniform(pr[0], pr[1])
-        bp.append([b, max(0.0, p)])
+    bp = gen_points(r, br, pr, ps, rx, ry, dyadic, n)
     case["skew"] = r.random() < 0.6
     # the caller's diagram: (b, d) when skew, else the already converted (b, p)
     case["dgm"] = [[b, b + p] for b, p in bp] if case["skew"] else bp
